@@ -17,7 +17,7 @@ RULE = ('Documents: fixtures; generated documents (charset E, markup-rich value 
         'non-trivial = distinct documents whose error messages echo >=1 markup canary.')
 ASSUMPTIONS = ['a segment without any element is listed as "SEG*~" by design of the formatter (don\'t-care)', 'messages of interchange/group/set level errors are not located (the property names segment- and element-level errors)',
                'blanks are rendered as &nbsp;: U+00A0 and U+0020 are identified when comparing']
-REQUIRED_COUNTERS = ['docs', 'docs:with-errors', 'seg-lines-compared', 'messages-located', 'messages-with-canary', 'docs:multi-interchange', 'docs:other-delimiters']
+REQUIRED_COUNTERS = ['cli:invocations', 'cli:reports-compared', 'docs:envelope-element-findings', 'inputs:envelope-soup', 'docs', 'docs:with-errors', 'seg-lines-compared', 'messages-located', 'messages-with-canary', 'docs:multi-interchange', 'docs:other-delimiters']
 MIN_CASES = {'quick': 500, 'thorough': 15000}
 WATCHDOG_S = {'quick': 1200, 'thorough': 7200}
 
@@ -317,7 +317,48 @@ DIRECTED = [
 ]
 
 
+def cli_phase(ctx, texts):
+    """the command-line front end (python -m pyx12.scripts.x12html -H f1 f2 ...) writes <file>.html for every input of ONE invocation; apart from the
+    date line each must be the report the library writes for that input"""
+    import os
+    import subprocess
+    import sys
+    # an input the library refuses with an exception (no map for its type) ends the command-line run as well: only inputs it completes
+    texts = [t for t in texts if pipeline.validate(t, charset='E', ack=False, html=True).exc is None]
+    if len(texts) < 2:
+        return
+    d = os.path.join(ctx.scratch, 'c19-cli-%d' % ctx.shard)
+    os.makedirs(d, exist_ok=True)
+    for f in os.listdir(d):
+        os.unlink(os.path.join(d, f))
+    paths = []
+    for i, t in enumerate(texts):
+        pth = os.path.join(d, 'in%d.x12' % i)
+        with open(pth, 'w', encoding='ascii', newline='') as fd:
+            fd.write(t)
+        paths.append(pth)
+    p = subprocess.run([sys.executable, '-m', 'pyx12.scripts.x12html', '-q', '-H'] + paths, stdout=subprocess.PIPE, stderr=subprocess.PIPE,
+                       env=dict(os.environ, PYTHONWARNINGS='ignore'), timeout=300, cwd=d)
+    ctx.count('cli:invocations')
+    strip = lambda h: '\n'.join(l for l in h.split('\n') if 'Analysis Date:' not in l)
+    for i, (t, pth) in enumerate(zip(texts, paths)):
+        res = pipeline.validate(t, charset='E', ack=False, html=True)
+        if res.exc is not None:
+            continue
+        out = pth + '.html'
+        got = open(out, encoding='utf-8', errors='replace', newline='').read() if os.path.exists(out) else ''
+        ctx.count('cli:reports-compared')
+        if strip(got) != strip(res.html or ''):
+            a, b = strip(got), strip(res.html or '')
+            k = next((j for j, (x, y) in enumerate(zip(a + '\0', b + '\0')) if x != y), None)
+            ctx.viol('cli:html-differs:file-%s-of-several' % ('first' if i == 0 else 'later'), 'the report written by the command-line front end differs from the report the library writes for the same input',
+                     {'cli': True, 'file_index': i, 'files': len(texts), 'text': t if len(t) < 60000 else None},
+                     {'cli_len': len(a), 'library_len': len(b), 'first_difference_at': k, 'cli_there': a[k:k + 160] if k is not None else None, 'library_there': b[k:k + 160] if k is not None else None,
+                      'stderr': p.stderr.decode('ascii', 'replace')[-200:]})
+
+
 def run(ctx):
+    recent = []
     sigs = set()
     n = 0
     fx = corpus.fixtures()
@@ -386,6 +427,11 @@ def run(ctx):
         case = {'map': e['file'], 'family': kinds, 'terms': list(terms), 'k': ['c19', ctx.shard, k], 'text': text if len(text) < 150000 else None}
         judge(ctx, text, 'E', case, sigs)
         n += 1
+        if all(ord(c) < 128 for c in text) and len(text) < 200000 and text[:3] == 'ISA':
+            recent = (recent + [text])[-3:]
+        if k % 20 == 19 and len(recent) >= 2:
+            cli_phase(ctx, list(recent))
+            n += 1
         ctx.sample({'map': e['file'], 'family': kinds, 'text_head': text[:300]})
     ctx.case(n=n, sigs=sorted(sigs))
 
